@@ -52,6 +52,9 @@ type EScen struct {
 	Script    []SEntry  `json:"script"`
 	Runs      int       `json:"runs"`
 	Note      string    `json:"note,omitempty"`
+	// concurrent batch nodes run gated: every exec call parks; at each quiescent point the
+	// parked call that comes first in Release (16*item index + attempt) is let go
+	Release []int `json:"release,omitempty"`
 }
 
 type EOutcome struct {
@@ -165,8 +168,12 @@ func (s EScen) Coq() string {
 	for i, e := range s.Script {
 		es[i] = e.Coq()
 	}
-	return fmt.Sprintf("{| es_nodes := [%s];\n     es_root := %d; es_precancel := %v;\n     es_script := [%s];\n     es_runs := %d |}",
-		strings.Join(ns, ";\n       "), s.Root, s.PreCancel, strings.Join(es, ";\n       "), s.Runs)
+	rel := make([]string, len(s.Release))
+	for i, x := range s.Release {
+		rel[i] = fmt.Sprint(x)
+	}
+	return fmt.Sprintf("{| es_nodes := [%s];\n     es_root := %d; es_precancel := %v;\n     es_script := [%s];\n     es_runs := %d; es_release := [%s] |}",
+		strings.Join(ns, ";\n       "), s.Root, s.PreCancel, strings.Join(es, ";\n       "), s.Runs, strings.Join(rel, "; "))
 }
 
 func (o EOutcome) Coq() string { return fmt.Sprintf("(%d, %s)", o.Action, o.Err.Coq()) }
@@ -188,6 +195,7 @@ func (o EObs) Coq() string {
 // ---------------------------------------------------------------- script runtime
 
 type scriptRT struct {
+	gate    *gateCtl
 	mu      sync.Mutex
 	entries []SEntry
 	counts  []int
@@ -253,14 +261,61 @@ func (s *scriptRT) takeTrace() []Event {
 type hnode struct {
 	id int
 	rt *scriptRT
+	// gated concurrent batch nodes
+	gated    bool
+	mu       sync.Mutex
+	itemIdx  map[int]int // item token -> index in the batch
+	attempts map[int]int // item token -> exec calls so far in this run of the node
+}
+
+// noteItems records the item order of a batch from the value its prep returns.
+func (h *hnode) noteItems(v *Val) {
+	h.mu.Lock()
+	defer h.mu.Unlock()
+	h.itemIdx = map[int]int{}
+	h.attempts = map[int]int{}
+	if v == nil {
+		return
+	}
+	x := *v
+	if x.T == "res" && x.V != nil && x.V.T == "sl" { // a Result holding a slice
+		x = *x.V
+	}
+	if x.T == "sl" {
+		for i, it := range x.L {
+			h.itemIdx[itemKey(it)] = i
+		}
+		return
+	}
+	h.itemIdx[itemKey(x)] = 0
 }
 
 func (h *hnode) prep(shared *flyt.SharedStore) Resp {
 	st := h.rt.w.encode(shared)
-	return h.rt.respond(Call{K: "prep", N: h.id, St: &st}, "prep", 0)
+	r := h.rt.respond(Call{K: "prep", N: h.id, St: &st}, "prep", 0)
+	if h.gated {
+		if r.K == "ok" {
+			h.noteItems(r.V)
+		} else {
+			h.noteItems(nil)
+		}
+	}
+	return r
 }
 func (h *hnode) exec(arg any) Resp {
 	a := h.rt.w.encode(arg)
+	if h.gated && h.rt.gate != nil {
+		key := itemKey(a)
+		h.mu.Lock()
+		idx, ok := h.itemIdx[key]
+		if !ok {
+			idx = 15 // an item the prep value did not announce
+		}
+		att := h.attempts[key]
+		h.attempts[key] = att + 1
+		h.mu.Unlock()
+		h.rt.gate.park(h.id, idx, att)
+	}
 	return h.rt.respond(Call{K: "exec", N: h.id, Arg: &a}, "exec", itemKey(a))
 }
 func (h *hnode) fallback(arg any, err error) Resp {
@@ -370,7 +425,7 @@ func waitDur(ms int) time.Duration { return time.Duration(ms) * time.Millisecond
 
 // buildNode constructs the flyt node for a definition. Flows are connected afterwards.
 func buildNode(d NodeDef, rt *scriptRT) (flyt.Node, error) {
-	h := &hnode{id: d.ID, rt: rt}
+	h := &hnode{id: d.ID, rt: rt, gated: d.Kind == "batch" && d.Conc > 0}
 	var baseOpts []flyt.NodeOption
 	if d.Retry != nil {
 		baseOpts = append(baseOpts, flyt.WithMaxRetries(d.Retry[0]), flyt.WithWait(waitDur(d.Retry[1])))
@@ -644,6 +699,14 @@ func runEngine(sc EScen) (obs EObs) {
 	}
 	if sc.PreCancel {
 		cancel()
+	}
+	for _, d := range sc.Nodes {
+		if d.Kind == "batch" && d.Conc > 0 {
+			rt.gate = newGateCtl(rt, sc.Release)
+			go rt.gate.loop()
+			defer rt.gate.stop()
+			break
+		}
 	}
 	runs := sc.Runs
 	if runs <= 0 {
